@@ -112,6 +112,11 @@ def term(v):
         return "a%d(%s)" % (v[1], ",".join(term(x) for x in v[2:]))
     if isinstance(v, tuple) and v and v[0] == "s":
         return "s%d.%d" % (v[1], v[2])
+    if isinstance(v, tuple) and len(v) == 3 and v[0] == "n":
+        # what a normalising store made of `v[2]` (harness/norm_exec.py; `Exec.tagNorm` in Model/ExecNorm.lean)
+        return "a%d(%s)" % (1000000 + v[1], term(v[2]))
+    if isinstance(v, tuple) and len(v) == 2 and v[0] == "missing":
+        return "missing%d" % v[1]
     return "?%r" % (v,)
 
 
@@ -361,7 +366,7 @@ def exec_applicable(spec):
     return not any(nd["kind"] in ("producer", "dsource", "token") or "feeds" in nd for nd in spec["nodes"])
 
 
-def exec_request(b, snap, c0, stale, out, events, value, ok):
+def exec_request(b, snap, c0, stale, out, events, value, ok, cmd="exec"):
     """One `exec` request for the Lean driver and the reply the REAL run corresponds to: the logical plan (plus the gather of
     the requested output), the registry in mapping order, the stale set the run computed, the store state before the run,
     and the order in which the effects of the physical nodes took place in the real run (calls that returned, reads that
@@ -400,8 +405,8 @@ def exec_request(b, snap, c0, stale, out, events, value, ok):
         order.append("o%d" % n)
         slots.append("o%d=a%d(%s)" % (n, n, ",".join(term(v) for v in value)))
     stores = sorted("%d=%s@%d" % (i, term(st.value), st.mtime) for i, st in b.stores.items() if st.mtime is not None)
-    line = "exec | %s | %s | %s | %s | %s | %s | %d | %s" % (
-        " ".join(nodes), " ".join(edges), reg, " ".join(str(i) for i in sorted(stale) if i in b.stores), outtok, world, c0,
+    line = "%s | %s | %s | %s | %s | %s | %s | %d | %s" % (
+        cmd, " ".join(nodes), " ".join(edges), reg, " ".join(str(i) for i in sorted(stale) if i in b.stores), outtok, world, c0,
         " ".join(order))
     want = "stores %s | slots %s" % (" ".join(stores), " ".join(slots))
     if ok:
